@@ -245,8 +245,8 @@ func runThresholdDecisions(cs CaseSpec) *CaseResult {
 func init() {
 	register(&PropDef{
 		ID: "C19", Level: "exploration", Engine: "thresholds", Exhaustive: true,
-		Rule: "exhaustive over n=1..100000: the real SuperMajority()/TrustCount() against integer arithmetic (3k>2n minimal; accepted count > n/3) and the derived quorum-intersection facts; plus random add/remove/re-add sequences through WithNewPeer/WithRemovedPeer on sets sharing a base, against a model of distinct keys; plus the real CheckBlock/SetAnchorBlock decisions for all n<=16 and all k<=n with real keys; distinct_nontrivial counts sampled sizes (every 997th and n<=12), edit sequences and (n,k) decisions",
-		Assumptions: []string{"for n>1500 the PeerSet is built with the same exported fields NewPeerSet fills, sharing maps between successive n", "a sufficient number of signatures being refused is not flagged"},
+		Rule:          "exhaustive over n=1..100000: the real SuperMajority()/TrustCount() against integer arithmetic (3k>2n minimal; accepted count > n/3) and the derived quorum-intersection facts; plus random add/remove/re-add sequences through WithNewPeer/WithRemovedPeer on sets sharing a base, against a model of distinct keys; plus the real CheckBlock/SetAnchorBlock decisions for all n<=16 and all k<=n with real keys; distinct_nontrivial counts sampled sizes (every 997th and n<=12), edit sequences and (n,k) decisions",
+		Assumptions:   []string{"for n>1500 the PeerSet is built with the same exported fields NewPeerSet fills, sharing maps between successive n", "a sufficient number of signatures being refused is not flagged"},
 		MinNontrivial: 50,
 		Cases: func(tier string, seed int64) []CaseSpec {
 			cs := []CaseSpec{}
